@@ -5,7 +5,7 @@ from __future__ import annotations
 import ast
 
 from rules.astmodel import AstModel
-from sa.cfg import CFG
+from sa.cfg import CFG, no_exc
 from sa.guards import FactFlow, aliases_of
 from sa.loader import (
     AnalysisError, FuncDef, Repo, call_name, enclosing_function, last_attr, parent, qualname_of,
@@ -1277,6 +1277,22 @@ def enter_leave_table(check: Check, repo: Repo, rule: str = "ENTER-LEAVE-TABLE")
             result_expr = s.value
             break
         stmts.append(s)
+    names = {"self": "SELF", "kind": "k"}
+    if result_expr is None:
+        # the lookup may have been extracted into a module-level helper called with (self, kind)
+        for s in handler.body:
+            call = s.value if isinstance(s, (ast.Assign, ast.Return)) and isinstance(s.value, ast.Call) else None
+            helper = mod.defs.get(call.func.id) if call is not None and isinstance(call.func, ast.Name) else None
+            if isinstance(helper, ast.FunctionDef) and [unparse(a) for a in call.args] == ["self", "kind"] and len(helper.args.args) == 2:
+                names = {helper.args.args[0].arg: "SELF", helper.args.args[1].arg: "k"}
+                stmts = []
+                for hs in helper.body:
+                    if isinstance(hs, (ast.Assign, ast.Return)) and isinstance(hs.value, ast.Call) and call_name(hs.value) == "EnterLeaveVisitor":
+                        result_expr = hs.value
+                        break
+                    if not (isinstance(hs, ast.Expr) and isinstance(hs.value, ast.Constant)):
+                        stmts.append(hs)
+                break
     if result_expr is None:
         raise AnalysisError("get_enter_leave_for_kind: EnterLeaveVisitor(...) construction not found")
     import itertools
@@ -1286,8 +1302,7 @@ def enter_leave_table(check: Check, repo: Repo, rule: str = "ENTER-LEAVE-TABLE")
     for ek, lk, e, l in itertools.product((False, True), repeat=4):
         have = {"enter_k": "EK" if ek else None, "leave_k": "LK" if lk else None, "enter": "E" if e else None, "leave": "L" if l else None}
         ev = Evaluator(repo, mod, {
-            "kind": "k",
-            "self": "SELF",
+            **names,
             "getattr": lambda _o, name, default=None, have=have: have.get(name, default),
             "EnterLeaveVisitor": lambda a, b: (a, b),
         })
@@ -1610,3 +1625,146 @@ def escape_pairs(check: Check, repo: Repo, rule: str = "ESCAPE-RANGE") -> None:
         check.ob(rule, fn, f"\\u{lead:04X}\\u{trail:04X} is not a surrogate pair", ok,
                  "reaches the GraphQLSyntaxError" if ok else
                  (f"folds to {r!r}: " + ("an exception other than the syntax error leaves the lexer" if r[0] == "ERROR" else "accepted as a pair")))
+
+
+def _norm_fact(f) -> tuple[str, bool] | None:
+    """A condition fact as (atom text, polarity) with `is not` / `!=` / `not` folded into the polarity."""
+    if f.kind != "cond":
+        return None
+    e, pol = f.expr, f.pol
+    while isinstance(e, ast.UnaryOp) and isinstance(e.op, ast.Not):
+        e, pol = e.operand, not pol
+    if isinstance(e, ast.Compare) and len(e.ops) == 1 and isinstance(e.ops[0], (ast.IsNot, ast.NotEq)):
+        op = ast.Is() if isinstance(e.ops[0], ast.IsNot) else ast.Eq()
+        e, pol = ast.Compare(left=e.left, ops=[op], comparators=e.comparators), not pol
+    return unparse(e), pol
+
+
+def norm_facts(facts) -> set[tuple[str, bool]]:
+    """Condition facts in normal form; a boolean local (`flag = <test>` with the eq-fact still valid) stands
+    for its test."""
+    from sa.guards import Fact
+
+    facts = list(facts)
+    eqs = {f.name: f.expr for f in facts if f.kind == "eq" and f.name}
+    out = set()
+    for f in facts:
+        nf = _norm_fact(f)
+        if nf:
+            out.add(nf)
+        if f.kind == "cond":
+            e, pol = f.expr, f.pol
+            while isinstance(e, ast.UnaryOp) and isinstance(e.op, ast.Not):
+                e, pol = e.operand, not pol
+            if isinstance(e, ast.Name) and e.id in eqs and isinstance(eqs[e.id], (ast.Compare, ast.UnaryOp, ast.Call)):
+                nf = _norm_fact(Fact("cond", eqs[e.id], pol))
+                if nf:
+                    out.add(nf)
+    return out
+
+
+def edit_once(check: Check, repo: Repo, rule: str = "EDIT-ONCE") -> None:
+    check.rule(
+        rule,
+        "in visit() at most one edit is recorded per visited node: whenever one `edits.append(...)` can be reached "
+        "from another inside the same iteration of the traversal loop, the two sites carry contradictory must-facts "
+        "about a variable that is not re-assigned between them (`result is not None` where the visitor's own result "
+        "is recorded, `result is None` where the node rebuilt from its children is passed upwards). Two records under "
+        "one key make the array arm shift its offset twice and the node arm keep the later one: REMOVE returned on "
+        "leave for a node with edited descendants would be overruled by the rebuilt node",
+    )
+    fn = repo.func("language.visitor", "visit")
+    loops = [s for s in fn.body if isinstance(s, ast.While)]
+    if len(loops) != 1:
+        raise AnalysisError("visit(): main loop not found")
+    loop = loops[0]
+    cfg = CFG(fn)
+    ff = FactFlow(cfg)
+    head = cfg.nodes_of(loop)[0]
+    sites = [c for c in ast.walk(loop) if isinstance(c, ast.Call) and unparse(c.func) == "edits.append"]
+    n = 0
+    for a in sites:
+        for b in sites:
+            if a is b:
+                continue
+            starts = cfg.node_for_expr(a)
+            goals = set(cfg.node_for_expr(b))
+            if not starts or not goals:
+                continue
+            path = cfg.find_path(starts[0], lambda nd: nd in goals, follow=no_exc, avoid=lambda nd: nd is head)
+            if not path:
+                continue
+            n += 1
+            fa = norm_facts(ff.facts_at(a))
+            fb = norm_facts(ff.facts_at(b))
+            contra = sorted(t for (t, p) in fa if (t, not p) in fb)
+            # the contradicting atom must speak about the same values at both sites
+            stable = []
+            for t in contra:
+                names = {x.id for x in ast.walk(ast.parse(t, mode="eval")) if isinstance(x, ast.Name)}
+                between = {nd for nd in path[1:-1] if nd.ast is not None}
+                if not any(_assigns(nd.ast, nm) for nd in cfg.reachable([starts[0]], follow=no_exc, avoid=lambda nd: nd is head or nd in goals)
+                           if nd.ast is not None and nd.kind in ("stmt", "for", "with") for nm in names):
+                    stable.append(t)
+            check.ob(rule, b, f"visit(): edits.append at line {a.lineno} then line {b.lineno} in one iteration", bool(stable),
+                     f"mutually exclusive: `{stable[0]}` holds at one site and is refuted at the other" if stable else
+                     f"both can run for the same node ({unparse(a)[:50]} then {unparse(b)[:50]}): no contradictory fact; path "
+                     + cfg.describe_path(path)[-160:])
+    if n == 0:
+        check.ob(rule, loop, "visit(): no two edits.append sites can run in one iteration", True, f"{len(sites)} site(s)", nontrivial=False)
+
+
+def _handler_name_pattern(arg: ast.AST) -> bool:
+    if isinstance(arg, ast.Constant) and isinstance(arg.value, str):
+        return arg.value in ("enter", "leave") or arg.value.startswith(("enter_", "leave_"))
+    if isinstance(arg, ast.JoinedStr) and arg.values and isinstance(arg.values[0], ast.Constant):
+        return str(arg.values[0].value).startswith(("enter_", "leave_"))
+    if isinstance(arg, ast.BinOp) and isinstance(arg.op, ast.Add) and isinstance(arg.left, ast.Constant):
+        return str(arg.left.value).startswith(("enter_", "leave_"))
+    return False
+
+
+def handler_lookup_owner(check: Check, repo: Repo, rule: str = "HANDLER-LOOKUP") -> None:
+    check.rule(
+        rule,
+        "get_enter_leave_for_kind is the one overridable way to obtain a visitor's handlers (ParallelVisitor and "
+        "user subclasses answer it without having enter_*/leave_* attributes): a name-based lookup "
+        "getattr(<obj>, 'enter_<kind>' / 'leave_<kind>' / 'enter' / 'leave') is only ever applied to `self` - directly "
+        "in a method, or in a helper whose object parameter receives `self` at every call site. Applied to another "
+        "visitor (a member of ParallelVisitor.visitors, the visitor wrapped by TypeInfoVisitor) it bypasses that "
+        "visitor's own get_enter_leave_for_kind: a nested ParallelVisitor is never called at all",
+    )
+    n = 0
+    for mn in ("language.visitor", "utilities.type_info", "validation.validate"):
+        mod = repo.mod(mn)
+        for c in ast.walk(mod.tree):
+            if not (isinstance(c, ast.Call) and call_name(c) == "getattr" and len(c.args) >= 2 and _handler_name_pattern(c.args[1])):
+                continue
+            n += 1
+            subj = c.args[0]
+            fn = enclosing_function(c)
+            ok, why = False, f"applied to `{unparse(subj)}`"
+            if isinstance(subj, ast.Name) and fn is not None and not isinstance(fn, ast.Lambda):
+                params = [a.arg for a in fn.args.args]
+                if subj.id == "self" and params[:1] == ["self"]:
+                    ok, why = True, "applied to self"
+                elif subj.id in params:
+                    pos = params.index(subj.id)
+                    calls = [k for k in ast.walk(mod.tree) if isinstance(k, ast.Call) and isinstance(k.func, ast.Name) and k.func.id == fn.name]
+                    passed = []
+                    for k in calls:
+                        a = k.args[pos] if pos < len(k.args) else next((kw.value for kw in k.keywords if kw.arg == subj.id), None)
+                        passed.append(unparse(a) if a is not None else "?")
+                    ok = bool(calls) and all(p == "self" for p in passed)
+                    why = (f"helper {fn.name}(): `{subj.id}` receives self at all {len(calls)} call sites" if ok else
+                           f"helper {fn.name}(): `{subj.id}` receives {sorted(set(passed))} - another visitor's handlers are looked up by name, its get_enter_leave_for_kind is bypassed")
+            check.ob(rule, c, f"{qualname_of(c)}: {unparse(c)[:60]}", ok, why)
+    if n < 4:
+        raise AnalysisError("HANDLER-LOOKUP: name-based handler lookups not found")
+    # positive side: the composite visitors ask their members through the method
+    for mn, q in (("language.visitor", "ParallelVisitor.get_enter_leave_for_kind"), ("utilities.type_info", "TypeInfoVisitor.enter"), ("utilities.type_info", "TypeInfoVisitor.leave"), ("language.visitor", "visit")):
+        fn = repo.func(mn, q)
+        asks = [c for c in walk_body(fn) if isinstance(c, ast.Call) and isinstance(c.func, ast.Attribute) and c.func.attr == "get_enter_leave_for_kind"
+                and unparse(c.func.value) != "self" and not unparse(c.func.value).startswith("super")]
+        check.ob(rule, fn, f"{q}: asks the visitor(s) it drives through get_enter_leave_for_kind", bool(asks),
+                 f"{len(asks)} call(s): " + ", ".join(unparse(a)[:50] for a in asks) if asks else "no call of <visitor>.get_enter_leave_for_kind(...)")
